@@ -195,6 +195,11 @@ func (p *c7prog) render(stageCmd string) string {
 			fmt.Fprintf(&b, "    in  %s %s,\n", f.t, f.name)
 		}
 		for _, f := range c.outs {
+			if f.name == "default" {
+				// the default output is declared without a name
+				fmt.Fprintf(&b, "    out %s,\n", f.t)
+				continue
+			}
 			fmt.Fprintf(&b, "    out %s %s,\n", f.t, f.name)
 		}
 		if c.stage {
@@ -404,6 +409,25 @@ func (g *c7gen) project(s c7src, depth int) []c7src {
 	return out
 }
 
+// genBind: the expression bound to a parameter.  Only here (the whole
+// binding is one reference) can 'STAGE' stand for 'STAGE.default'.
+func (g *c7gen) genBind(sc *c7scope, t c7ty, depth int) *c7ex {
+	if sc != nil && g.r.Intn(100) < 45 {
+		var bare []c7src
+		for _, s := range sc.srcs {
+			if strings.HasSuffix(s.ref, ".default") && strings.Count(s.ref, ".") == 1 && !strings.HasPrefix(s.ref, "self.") &&
+				!s.mapped && s.t.mp == 0 && g.structByName(t.base) == nil && t.mp == 0 && g.conv(t, s.t) {
+				bare = append(bare, c7src{strings.TrimSuffix(s.ref, ".default"), s.t, s.mapped})
+			}
+		}
+		if len(bare) > 0 && g.r.Intn(2) == 0 {
+			g.stats["ref_default_shorthand"]++
+			return &c7ex{k: 'r', text: hx.Pick(g.r, bare).ref}
+		}
+	}
+	return g.genExp(sc, t, depth)
+}
+
 func (g *c7gen) genExp(sc *c7scope, t c7ty, depth int) *c7ex {
 	if g.r.Intn(12) == 0 {
 		return &c7ex{k: 'n', text: "null"}
@@ -527,6 +551,17 @@ func (g *c7gen) genStage() *c7callable {
 		name := fmt.Sprintf("o%d", i)
 		st.outs = append(st.outs, c7field{name, g.randType(true)})
 	}
+	if g.r.Intn(3) == 0 {
+		// an output named "default": 'arg = STAGE' is then also shorthand for
+		// 'arg = STAGE.default' (the martian 3 spelling, still accepted for
+		// types that are not structs or typed maps)
+		t := c7ty{base: hx.Pick(g.r, []string{"int", "float", "string", "bool", "file", "int", "float"})}
+		if g.r.Intn(4) == 0 {
+			t.arr = 1
+		}
+		st.outs[0] = c7field{"default", t}
+		g.stats["stage_with_default_output"]++
+	}
 	g.p.callables = append(g.p.callables, st)
 	return st
 }
@@ -580,7 +615,7 @@ func (g *c7gen) genCall(sc *c7scope, callee *c7callable, idx int) *c7call {
 			}
 		}
 		if !split {
-			c.binds = append(c.binds, c7bind{p.name, g.genExp(sc, p.t, 2)})
+			c.binds = append(c.binds, c7bind{p.name, g.genBind(sc, p.t, 2)})
 			continue
 		}
 		nsplit++
@@ -613,7 +648,7 @@ func (g *c7gen) genCall(sc *c7scope, callee *c7callable, idx int) *c7call {
 		if inner == nil {
 			if g.runtime && nsplit > 1 {
 				// a second split source would have to agree in size at run time
-				c.binds = append(c.binds, c7bind{p.name, g.genExp(sc, p.t, 2)})
+				c.binds = append(c.binds, c7bind{p.name, g.genBind(sc, p.t, 2)})
 				nsplit--
 				continue
 			}
@@ -716,7 +751,7 @@ func (g *c7gen) genPipeline(callables []*c7callable, top bool) *c7callable {
 		} else {
 			t := g.randType(true)
 			p.outs = append(p.outs, c7field{name, t})
-			p.ret = append(p.ret, c7bind{name, g.genExp(sc, t, 2)})
+			p.ret = append(p.ret, c7bind{name, g.genBind(sc, t, 2)})
 		}
 	}
 	// every input must be used: bind unused ones into an extra output
@@ -991,6 +1026,54 @@ func (g *c7gen) mutations(p *c7prog) []c7mut {
 				*tp = e
 				return true
 			})
+			// 1b. the 'arg = STAGE' shorthand for STAGE.default with a default
+			// output that does not / does convert to the parameter type
+			if t.mp == 0 && !isStruct && !split && s0.pl != nil && t.base != "map" {
+				byName := map[string]*c7callable{}
+				for _, c := range p.callables {
+					byName[c.name] = c
+				}
+				for _, oc := range s0.pl.calls {
+					if oc == s0.c || oc.mapped || byName[oc.callee] == nil || len(byName[oc.callee].outs) == 0 ||
+						byName[oc.callee].outs[0].name != "default" {
+						continue
+					}
+					if s0.c != nil {
+						// only calls written before this one (no cycle)
+						before := false
+						for _, x := range s0.pl.calls {
+							if x == oc {
+								before = true
+							}
+							if x == s0.c {
+								break
+							}
+						}
+						if !before {
+							continue
+						}
+					}
+					d := byName[oc.callee].outs[0].t
+					id := oc.id
+					if !g.conv(t, d) {
+						mk("default_shorthand_wrong_type", true, b0.id, func(s c7site, b *c7bind) bool {
+							if c7usesSelf(b.e) {
+								return false
+							}
+							b.e = &c7ex{k: 'r', text: id}
+							return true
+						})
+					} else if d != t {
+						mk("default_shorthand_converts", false, b0.id, func(s c7site, b *c7bind) bool {
+							if c7usesSelf(b.e) {
+								return false
+							}
+							b.e = &c7ex{k: 'r', text: id}
+							return true
+						})
+					}
+				}
+			}
 			// 2. array depth: one more / one fewer level
 			mk("array_depth_more", true, b0.id, func(s c7site, b *c7bind) bool {
 				tp := target(b)
